@@ -40,13 +40,18 @@ func (t *TaskExecutor[T]) ExecuteAt(identifier T, callback func(), executionTime
 		queuedElement.Cancel()
 	}
 
-	scheduledTask := t.Executor.ExecuteAt(func() {
+	var scheduledTask *ScheduledTask
+	scheduledTask = t.Executor.ExecuteAt(func() {
 		callback()
 
 		t.queuedElementsMutex.Lock()
 		defer t.queuedElementsMutex.Unlock()
 
-		t.queuedElements.Delete(identifier)
+		// the identifier might have been re-scheduled in the meantime (e.g. by the callback itself),
+		// in which case the entry belongs to the new task and has to stay
+		if queuedElement, exists := t.queuedElements.Get(identifier); exists && queuedElement == scheduledTask {
+			t.queuedElements.Delete(identifier)
+		}
 	}, executionTime)
 
 	if scheduledTask != nil {
